@@ -21,7 +21,7 @@ with kmirror.MirrorLock():
         if not ok:
             print('codegen failed', crate); print(out[-3000:]); continue
         t0 = time.time()
-        jobs = [dict(crate=crate, features=list(feats) if feats is not None else None, harness=kmirror.harness_path(registry.HARNESSES[h]['file'], h), timeout=900) for h in hl]
+        jobs = [dict(crate=crate, features=list(feats) if feats is not None else None, harness=kmirror.harness_path(registry.HARNESSES[h]['file'], registry.HARNESSES[h].get('fn', h)), timeout=900) for h in hl]
         rg = kmirror.run_group(crate, list(feats) if feats is not None else None, [j['harness'] for j in jobs], nproc=12, timeout=7200, harness_timeout=900)
         for h, j in zip(hl, jobs):
             r = rg[j['harness']]
